@@ -256,8 +256,16 @@ def gen_c11(tier, seed):
         if i % 9 == 4 and limit >= 256:
             # an earlier start under a lower limit must not influence this one
             parts = ["rlimit 64", "N 1", start_tokens(1, {"stop": KILL_POLICY}), "K 1", "W 1 -1", "D 1"] + parts
-        parts += ["OPENFDS %d %d %d" % (nfds, r.randrange(100000), inclmax), "N 0", start_tokens(0, o), "K 0", "W 0 -1", "D 0"]
-        cases.append(Case("c11-%d" % i, " ; ".join(parts), {"opts": o, "limit": limit, "inclmax": inclmax, "mask": mask},
+        siblings = []
+        tail = []
+        if i % 5 == 2:
+            # one or two other children of the same parent are alive, with all three streams piped:
+            # their pipe ends and exit handles belong to the parent, not to the new child
+            for h in range(1, r.choice([2, 3])):
+                siblings += ["N %d" % h, start_tokens(h, {"err": R_PIPE, "stop": KILL_POLICY, "fork": 1 if r.random() < 0.2 else None})]
+                tail += ["K %d" % h, "W %d -1" % h, "D %d" % h]
+        parts += ["OPENFDS %d %d %d" % (nfds, r.randrange(100000), inclmax)] + siblings + ["N 0", start_tokens(0, o), "K 0", "W 0 -1", "D 0"] + tail
+        cases.append(Case("c11-%d" % i, " ; ".join(parts), {"opts": o, "limit": limit, "inclmax": inclmax, "mask": mask, "siblings": len(siblings) // 2},
                           "c11/%d/%d/%d/%d/%d" % (limit, nfds, inclmax, i % len(fams), i)))
     return cases
 
@@ -300,6 +308,8 @@ def judge_c11(case, log):
             V(vs, "C11", "inherited-descriptor:%s" % where, "the program sees descriptor %d (a pipe the parent had open) ; limit %d" % (f[0], limit))
         if not inherited:
             V(vs, "C11", "several-extra-pipes", "the program sees %d extra pipe descriptors: %s" % (len(fifos), [f[0] for f in fifos]))
+    if case.meta.get("siblings"):
+        obs["with_live_siblings"] = obs.get("with_live_siblings", 0) + 1
     if len(fifos) == 0:
         V(vs, "C11", "exit-handle-missing", "the program has no exit handle (descriptors: %s)" % [f[0] for f in fds])
     return vs, obs, True
